@@ -41,6 +41,8 @@ def pose_spec(planar: bool):
         "V": st.lists(f(-3.0, 3.0), min_size=3, max_size=3),
         "omega": st.lists(f(-4.0, 4.0), min_size=3, max_size=3),
         "omega_zero": st.booleans(),
+        # the body is brought to rest: velocity and angular velocity exactly zero (fixed bodies, imposed motions that end)
+        "at_rest": st.integers(0, 4).map(lambda k: k == 0),
     }).map(lambda d: {**d, "planar": planar})
 
 
@@ -64,6 +66,9 @@ def apply_pose(body, spec):
     cen = np.array(spec["center"], dtype=np.float64)
     V = np.array(spec["V"], dtype=np.float64)
     om = np.zeros(3) if spec["omega_zero"] else np.array(spec["omega"], dtype=np.float64)
+    if spec.get("at_rest"):
+        V[:] = 0.0
+        om[:] = 0.0
     if planar:
         cen[2] = 0.0
         V[2] = 0.0
